@@ -307,6 +307,7 @@ class _State:
         self.thread = InferiorThread(1, 'main')
         self.executed = []
         self.written = []
+        self.decline_quit = False
         self.breakpoints = []
         self.commands = {}
 
@@ -334,6 +335,8 @@ def selected_thread():
 
 def execute(cmd, from_tty=False, to_string=False):
     state.executed.append(cmd)
+    if cmd == 'quit' and getattr(state, 'decline_quit', False):
+        raise error('Not confirmed.')      # the user answered `n` to "A debugging session is active ... Quit anyway?"
     return '' if to_string else None
 
 
